@@ -504,5 +504,13 @@ def rule_generator_adapters(ctx):
     rep.require('C09.j', 'generator adapters over library streams', n, 1)
 
 
+
+def rule_builders_fresh(ctx):
+    """C05.h  Every frame builder hands out a frame object of its own: frames wait in the send queue as objects and are
+    serialised later, so a shared frame goes out with the fields of the last call (rules/plumbing.py)."""
+    from .plumbing import rule_builders_fresh as rb
+    rb(ctx, 'C05.h')
+
+
 RULES = [('C09.a', rule_a), ('C09.b', rule_b), ('C09.c', rule_c), ('C09.d', rule_d), ('C09.e', rule_e),
-         ('C09.f', c07b), ('C09.g', rule_g), ('C05.a', rule_order), ('C20.d', rule_rx), ('C09.i', rule_router_future), ('C09.j', rule_generator_adapters)]
+         ('C09.f', c07b), ('C09.g', rule_g), ('C05.a', rule_order), ('C20.d', rule_rx), ('C09.i', rule_router_future), ('C09.j', rule_generator_adapters), ('C05.h', rule_builders_fresh)]
